@@ -10,7 +10,7 @@
     Graphs: node ids pairwise distinct ([NoDup (node_ids g)], guaranteed by networkx); adjacency is symmetric by
     construction ([LGraph.adj]). *)
 From Coq Require Import List NArith ZArith Bool Arith Permutation Sorted.
-From SK Require Import lib.LGraph model.C12_Model model.C12_Trace model.C12_State proof.C12_Search proof.C12_Proof proof.C12_Prune proof.C12_Enum proof.C12_Sorted proof.C12_Component proof.C12_Mol proof.C12_State proof.C12_Trace proof.C12_LastSize proof.C12_StateRaw.
+From SK Require Import lib.LGraph model.C12_Model model.C12_Trace model.C12_Check model.C12_State proof.C12_Search proof.C12_Proof proof.C12_Prune proof.C12_Enum proof.C12_Sorted proof.C12_Component proof.C12_Mol proof.C12_State proof.C12_Trace proof.C12_LastSize proof.C12_StateRaw proof.C12_Check.
 Import ListNotations.
 
 (** ** 0. the specification: a common induced sub-graph mapping, written out.
@@ -659,3 +659,38 @@ Theorem C12_history_valid_raw :
     (mcs = false -> forall m, raw_valid cfg g1 g2 m -> 1 <= length m -> exists m', In m' l12 /\ Permutation m m').
 Proof. exact history_valid_raw. Qed.
 Print Assumptions C12_history_valid_raw.
+
+(** ** 22. (round 5) a decision procedure for the validity clause, and mcs_mol=True with VF2's choice as an input.
+    [ci_check] (model/C12_Check.v) decides [common_induced].  [find_mcs_mol_with]: the greedy component pairing of the model
+    ([find_mcs_mol_pairs]) plus the isomorphisms inside the pairs as a PARAMETER [choice] (obtained by the harness from networkx
+    alone), accepted iff its part on every selected component c1 passes [ci_check] on the two induced copies and covers c1, and it
+    has no other pair.  Every accepted parameter yields ONE combined mapping, reported G1 -> G2, that is a common induced mapping
+    of the (pruned) graphs -- injective and bond-preserving also across components -- whose inverse is one for (G2, G1); after any
+    history the cache is that result ([MFindMol]). *)
+Theorem C12_ci_check_decides :
+  forall (nm : option nattr -> option nattr -> bool) (em : eattr -> eattr -> bool) (ga gb : graph) (m : mapping),
+  ci_check nm em ga gb m = true <-> common_induced nm em ga gb m.
+Proof. exact ci_check_spec. Qed.
+Print Assumptions C12_ci_check_decides.
+
+Theorem C12_mcs_mol_choice_valid :
+  forall (defs : list N) (prune : bool) (wc : N) (g1 g2 : graph) (choice : mapping) (r : result),
+  NoDup (node_ids g1) -> NoDup (node_ids g2) ->
+  (forall a b x, In (a, b, x) (gedges g1) -> In a (node_ids g1) /\ In b (node_ids g1)) ->
+  (forall a b x, In (a, b, x) (gedges g2) -> In a (node_ids g2) /\ In b (node_ids g2)) ->
+  find_mcs_mol_with defs prune wc g1 g2 choice = Some r ->
+  exists m, r_maps r = [m] /\ r_last r = length m /\ r_pattern_is_g1 r = true /\
+            r_tried r = snd (find_mcs_mol_pairs defs prune wc g1 g2) /\
+            (forall ph, In ph m -> In ph choice) /\ length m = length choice /\
+            common_induced (node_match defs) edge_match (prune_graph prune wc g1) (prune_graph prune wc g2) m /\
+            common_induced (node_match defs) edge_match (prune_graph prune wc g2) (prune_graph prune wc g1) (invert_mapping m).
+Proof. exact mol_choice_valid. Qed.
+Print Assumptions C12_mcs_mol_choice_valid.
+
+Theorem C12_history_mcs_mol :
+  forall (cfg : config) (st : mstate) (ops : list mop) (g1 g2 : rgraph) (choice : mapping) (rds : list mop) (r : result),
+  forallb is_read rds = true ->
+  find_mcs_mol_with (c_defs cfg) (c_prune cfg) (c_wc cfg) (project cfg g1) (project cfg g2) choice = Some r ->
+  m_run cfg st (ops ++ MFindMol g1 g2 choice :: rds) = state_of r.
+Proof. exact history_mol. Qed.
+Print Assumptions C12_history_mcs_mol.
